@@ -296,6 +296,31 @@ def run(tier, rep):
                 rep.violation("unbound-use-diagnostic-does-not-name-identifier", {"program": text, "unbound": unbound, "diags": msgs[:4]}, replay={"toks": toks})
             else:
                 rejected += 1
+    # ---- a parameter named like an enum variant (lowercase constructors are legal): the parameter is the innermost binder of its uses
+    vreq, vmeta = [], {}
+    for bk in ("fn-param", "closure-param"):
+        for vk, decl in (("nullary", "enum color { red, green }"), ("payload", "enum color { red(int32), green }")):
+            for use in ("value", "callee"):
+                pty, body, arg = ("int32", "red + 1", "41") if use == "value" else ("(int32) -> int32", "red(41)", "|v: int32| v + 1")
+                if bk == "fn-param":
+                    text = f"{decl}\nfn pick(red: {pty}) -> int32 {{ {body} }}\nfn main() -> unit {{\n    let _ = string_println(int32_to_string(pick({arg})));\n    ()\n}}\n"
+                else:
+                    text = f"{decl}\nfn main() -> unit {{\n    let f = |red: {pty}| {body};\n    let _ = string_println(int32_to_string(f({arg})));\n    ()\n}}\n"
+                cid = f"variantname_{bk}_{vk}_{use}".replace("-", "_")
+                d = os.path.join(root, cid)
+                os.makedirs(d, exist_ok=True)
+                open(os.path.join(d, "main.gom"), "w").write(text)
+                vreq.append({"id": cid, "path": os.path.join(d, "main.gom")})
+                vmeta[cid] = (f"binder-named-like-constructor:{bk}:{vk}-variant:{use}", text)
+    vacc = 0
+    for a in gv_parallel("compile", vreq, shards=4):
+        ident, text = vmeta[a["id"]]
+        if a["verdict"] == "ok":
+            vacc += 1
+        else:
+            rep.violation(ident, {"program": text, "verdict": a["verdict"], "diags": [d["msg"] for d in a.get("diags", [])][:3],
+                                  "expected": "accepted: every use of `red` is in the scope of the parameter `red`"}, replay={"path": vreq[0]["path"], "text": text})
+    rep.coverage["binders_named_like_a_variant_accepted"] = vacc
     for toks, text, uses, _ in meta[:2]:
         rep.sample({"tokens": canon(toks), "expected_resolution": [e for _, _, e in uses], "program": text})
     rep.coverage.update({
